@@ -1,5 +1,6 @@
 import DracoModel.BitCoders
 import DracoModel.DecM
+import DracoModel.TreeStack
 /-
   Mirrors src/draco/compression/point_cloud/algorithms/dynamic_integer_points_kd_tree_decoder.h
   (`DynamicIntegerPointsKdTreeDecoder<level>`, levels 0..6).
@@ -107,22 +108,18 @@ def leafPoints {σ} (S : Src σ) (P : Params) (base levels axes : List Nat) :
       | none => none
       | some (ps, s2) => some (p :: ps, s2)
 
-/-- the effect of one iteration of the `while` loop on the popped tuple -/
-inductive NodeOut (σ : Type) where
-  /-- points written to the output iterator, in order -/
-  | leaf (pts : List (List Nat)) (st : St σ)
-  /-- tuples pushed: `first` (if non-empty) and then `second` (if non-empty, on top) -/
-  | split (first second : Option Frame) (st : St σ)
-
 /-- body of the `while (!status_stack.empty())` loop of `DecodeInternal`; `none` = `return false` -/
-def node {σ} (S : Src σ) (P : Params) (fr : Frame) (st : St σ) : Option (NodeOut σ) :=
+def node {σ} (S : Src σ) (P : Params) (fr : Frame) (st : St σ) :
+    Option (TreeStack.Step Frame (List Nat) (St σ)) :=
   if fr.n > P.numPoints then none else
   let ax := getAxis S P st.src fr.n fr.levels fr.lastAxis
   let axis := ax.1
   if axis ≥ P.dim then none else
   let level := fr.levels.getD axis 0
-  -- `(bit_length_ - level) == 0` in `uint32_t`
-  if level = P.bitLength then
+  -- `(bit_length_ - level) == 0`: levels never exceed `bit_length_` (they start at 0 and grow by
+  -- one only when different from it: `DracoProofs/KdTreeCell.lean`), so the `uint32_t`
+  -- difference does not wrap and is the truncated difference
+  if P.bitLength - level = 0 then
     some (.leaf (List.replicate fr.n fr.base) ⟨ax.2, st.decoded + fr.n⟩)
   else if fr.n ≤ 2 then
     match leafPoints S P fr.base fr.levels (axesFrom axis P.dim P.dim) fr.n ax.2 with
@@ -130,8 +127,6 @@ def node {σ} (S : Src σ) (P : Params) (fr : Frame) (st : St σ) : Option (Node
     | some (pts, s1) => some (.leaf pts ⟨s1, st.decoded + fr.n⟩)
   else if st.decoded > P.numPoints then none
   else
-    -- levels never exceed `bit_length_` (they start at 0 and grow by one only when different
-    -- from it), so the `uint32_t` difference does not wrap
     let nrb := P.bitLength - level
     let modifier := 2 ^ (nrb - 1)
     let base2 := fr.base.set axis ((fr.base.getD axis 0 + modifier) % 2^32)
@@ -143,25 +138,15 @@ def node {σ} (S : Src σ) (P : Params) (fr : Frame) (st : St σ) : Option (Node
     let hb : Bool × σ := if first ≠ second then S.half nm.2 else (true, nm.2)
     let fs : Nat × Nat := if hb.1 then (first, second) else (second, first)
     let levels2 := fr.levels.set axis (level + 1)
-    some (.split (if fs.1 ≠ 0 then some ⟨fs.1, axis, fr.base, levels2⟩ else none)
+    some (.split [] (if fs.1 ≠ 0 then some ⟨fs.1, axis, fr.base, levels2⟩ else none)
                  (if fs.2 ≠ 0 then some ⟨fs.2, axis, base2, levels2⟩ else none)
                  ⟨hb.2, st.decoded⟩)
-
-def optList {α} : Option α → List α
-  | none => []
-  | some a => [a]
 
 /-- `while (!status_stack.empty())`; the stack top is the list head; `acc` = the points written
     so far, newest first -/
 def run {σ} (S : Src σ) (P : Params) :
-    Nat → List Frame → St σ → List (List Nat) → Option (List (List Nat) × St σ)
-  | _, [], st, acc => some (acc, st)
-  | 0, _ :: _, _, _ => none
-  | fuel+1, fr :: stack, st, acc =>
-    match node S P fr st with
-    | none => none
-    | some (.leaf pts st1) => run S P fuel stack st1 (pts.reverse ++ acc)
-    | some (.split f s st1) => run S P fuel (optList s ++ (optList f ++ stack)) st1 acc
+    Nat → List Frame → St σ → List (List Nat) → Option (List (List Nat) × St σ) :=
+  TreeStack.run (node S P)
 
 /-- enough iterations: every tuple holds at least one point and a split leaves the children
     one level further down, so at most `n · (bit_length_ · dimension_ + 1)` tuples are popped
@@ -178,24 +163,10 @@ def decodeInternal {σ} (S : Src σ) (P : Params) (s : σ) : Option (List (List 
 
 /-! ### the same function by structural recursion on the tree -/
 
-/-- the subtree of one tuple: second half first (it is pushed last) -/
-def tree {σ} (S : Src σ) (P : Params) : Nat → Frame → St σ → Option (List (List Nat) × St σ)
-  | 0, _, _ => none
-  | d+1, fr, st =>
-    match node S P fr st with
-    | none => none
-    | some (.leaf pts st1) => some (pts, st1)
-    | some (.split f s st1) =>
-      let sub (o : Option Frame) (st : St σ) : Option (List (List Nat) × St σ) :=
-        match o with
-        | none => some ([], st)
-        | some fr => tree S P d fr st
-      match sub s st1 with
-      | none => none
-      | some (p2, st2) =>
-        match sub f st2 with
-        | none => none
-        | some (p1, st3) => some (p2 ++ p1, st3)
+/-- the subtree of one tuple: second half first (it is pushed last);
+    `run` = `tree`: `DracoProofs/KdTreeStack.lean` -/
+def tree {σ} (S : Src σ) (P : Params) : Nat → Frame → St σ → Option (List (List Nat) × St σ) :=
+  TreeStack.tree (node S P)
 
 /-! ### the policies -/
 
